@@ -6,6 +6,8 @@ package harness
 
 import (
 	"fmt"
+	"github.com/remieven/ysgo"
+	"github.com/remieven/ysgo/variable"
 	"strings"
 	"testing"
 
@@ -229,3 +231,89 @@ var c01AllPaths = Register(Prop[flowCase]{
 })
 
 func TestC01AllPaths(t *testing.T) { Check(t, c01AllPaths) }
+
+// ---------------------------------------------------------------------------------------
+// long runs that show nothing: a loop that counts to N by jumping, in one Next call, and a loop of N asynchronous
+// commands without any line in between. The semantics has no step budget: the line after the loop is the next element,
+// every command reached its handler once, and the end comes after the <<stop>> and not before.
+
+type c01LongCase struct {
+	Shape  string `json:"shape"` // jump-loop, command-loop
+	Rounds int    `json:"rounds"`
+}
+
+func runC01Long(c c01LongCase) Verdict {
+	var src string
+	if c.Shape == "jump-loop" {
+		src = fmt.Sprintf("title: Start\n---\n<<set $i to 0>>\n<<jump Loop>>\n===\ntitle: Loop\n---\n<<set $i += 1>>\n<<if $i >= %d>>\n    Counted to {$i}.\n    <<stop>>\n<<endif>>\n<<jump Loop>>\n===\n", c.Rounds)
+	} else {
+		src = fmt.Sprintf("title: Loop\n---\n<<tick {$i} beat>>\n<<set $i to $i + 1>>\n<<if $i >= %d>>\n    Counted to {$i}.\n    <<stop>>\n<<endif>>\n<<jump Loop>>\n===\n", c.Rounds)
+	}
+	storer := variable.NewInMemoryStorer()
+	storer.SetNumberValue("i", 0)
+	dr, err := ysgo.NewDialogueRunner(storer, "abc", strings.NewReader(src))
+	if err != nil {
+		return failf("script does not load: %v", err)
+	}
+	ticks, lastTick := 0, -1.0
+	inOrder := true
+	dr.AddCommand("tick", func(args []*variable.Value) <-chan error {
+		if len(args) == 2 && args[0].Number != nil {
+			if *args[0].Number != lastTick+1 {
+				inOrder = false
+			}
+			lastTick = *args[0].Number
+		}
+		ticks++
+		ch := make(chan error, 1)
+		ch <- nil
+		return ch
+	})
+	h := &host{dr: dr, storer: newRecStorer()}
+	var ev Ev
+	for calls := 0; ; calls++ {
+		ev = h.step(0)
+		if ev.K != "wait" {
+			break
+		}
+		h.trace = h.trace[:0]
+		if calls > 3*c.Rounds+10 {
+			return failf("%s of %d rounds: still waiting after %d calls", c.Shape, c.Rounds, calls)
+		}
+	}
+	want := fmt.Sprintf("Counted to %d.", c.Rounds)
+	if ev.K != "line" || ev.Text != want {
+		return failf("%s of %d rounds (%d statements without a line): expected the line %q, got %s (variable $i = %v, handler invocations %d)", c.Shape, c.Rounds, 3*c.Rounds, want, ev, h2mval(storer, "i"), ticks)
+	}
+	if c.Shape == "command-loop" && (ticks != c.Rounds || !inOrder) {
+		return failf("command-loop of %d rounds: the handler was invoked %d times (in order: %v)", c.Rounds, ticks, inOrder)
+	}
+	if ev = h.step(0); ev.K != "end" {
+		return failf("%s of %d rounds: expected the end after <<stop>>, got %s", c.Shape, c.Rounds, ev)
+	}
+	return Verdict{NonTrivial: c.Rounds >= 1000, Classes: []string{"shape=" + c.Shape}}
+}
+
+var c01Long = Register(Prop[c01LongCase]{ID: "C01", Name: "long-silent-runs", Run: runC01Long})
+
+func TestC01LongSilentRuns(t *testing.T) {
+	rounds := []int{1, 10, 1000, 33333, 33334, 40000, 50001, 100001, 120000}
+	if tier() == "thorough" {
+		rounds = append(rounds, 250000, 400000)
+	}
+	Enumerate(t, c01Long, true, fmt.Sprintf("a jump loop counting to N inside one Next call, and a loop of N asynchronous commands with no line in between, for N in %v", rounds),
+		func(yield func(c01LongCase) bool) {
+			for _, shape := range []string{"jump-loop", "command-loop"} {
+				for _, n := range rounds {
+					if !yield(c01LongCase{Shape: shape, Rounds: n}) {
+						return
+					}
+				}
+			}
+		})
+}
+
+func h2mval(st variable.Storer, name string) mval {
+	v, _ := st.GetValue(name)
+	return toMval(v)
+}
